@@ -117,6 +117,40 @@ def run(ctx: core.Ctx):
             ctx.record(fam, PROVED if ok else REFUTED, rp if fam.total < 2 else None)
             if not ok:
                 ctx.violate(fam, key, what, rp)
+    # reports / bases / circuits of ALL configurations requested first and examined afterwards, in one process (the documented use of get_mub_info is comparing
+    # configurations): every object handed out must still describe its own configuration when the others have been requested, and no two of them share a mutable part
+    from .c13 import reach_mutable
+    fam = ctx.family("C09.reports_held_across_configurations", GROUND, "native+oracle",
+                     "get_mub_info / get_mubs / get_mub_circuits for all 20 configurations collected first, verified afterwards; pairwise no shared mutable object")
+    fam.exhaustive = True
+    fam.domain = "the 20 advertised configurations, in file order and in reverse order"
+    for order in (list(docs.ADVERTISED), list(reversed(docs.ADVERTISED))):
+        held = {cfg: (mc.get_mub_info(*cfg), mc.get_mubs(*cfg), mc.get_mub_circuits(*cfg)) for cfg in order}
+        owners = {}
+        for cfg in order:
+            n, conn = cfg
+            info, mubs, circs = held[cfg]
+            costs = [P.two_qubit_cost(adapt.gates_of(c)) for c in circs]
+            depths = [P.two_qubit_depth(n, adapt.gates_of(c)) for c in circs]
+            try:
+                ok = len(mubs) == 2 ** n + 1 and len(circs) == 2 ** n + 1 and info["num circuits"] == 2 ** n + 1 and info["max two-qubit count"] == max(costs) \
+                    and info["max two-qubit depth"] == max(depths) and abs(info["average two-qubit count"] - sum(costs) / (2 ** n + 1)) < 1e-12 \
+                    and all(c.num_qubits == n for c in circs) and all(len(b) == n for b in mubs)
+            except Exception:
+                ok = False
+            shared = []
+            for label, obj in (("info", info), ("mubs", mubs), ("circuits", circs)):
+                for i in reach_mutable(obj):
+                    if i in owners and owners[i] != (cfg, label):
+                        shared.append((owners[i], (cfg, label)))
+                    owners.setdefault(i, (cfg, label))
+            ok = ok and not shared
+            ctx.record(fam, PROVED if ok else REFUTED, {"n": n, "connectivity": conn} if fam.total < 2 else None)
+            if not ok:
+                ctx.violate(fam, f"held:{n}:{conn}:{order[0]}", f"{n}-{conn}: the report / bases / circuits obtained earlier no longer describe this configuration after the other "
+                            f"configurations were requested (report now {info}; actual max count {max(costs)}, max depth {max(depths)}, {2 ** n + 1} circuits), or share mutable objects: {shared[:2]}",
+                            {"n": n, "connectivity": conn, "order_starts_with": list(order[0]),
+                             "python": "infos = {c: get_mub_info(*c) for c in get_available_connectivities()}; print(infos)"})
     ctx.extra["ground_time_s"] = round(time.time() - t, 2)
     ctx.trust("oracle tableau simulator, gate counting, depth", "Q3")
     return core.finish(ctx, "proof", "contract obligations discharged by complete enumeration (20 files, all bases, all group elements)",
@@ -125,6 +159,12 @@ def run(ctx: core.Ctx):
 
 def replay(data):
     inp = data["input"]
+    if "order_starts_with" in inp:
+        import htstabilizer.mub_circuits as mc
+        infos = {c: mc.get_mub_info(*c) for c in docs.ADVERTISED}
+        same = len({id(v) for v in infos.values()}) < len(infos)
+        print("reports collected for all configurations:", {f"{k[0]}-{k[1]}": v for k, v in list(infos.items())[:3]}, "... distinct objects:", not same)
+        return 1 if same or infos[(inp["n"], inp["connectivity"])]["num circuits"] != 2 ** inp["n"] + 1 else 0
     hits = [r for r in config_job((inp["n"], inp["connectivity"])) if not r[1] and r[2] == data["key"]]
     for r in hits:
         print("REPRODUCED:", r[3])
